@@ -448,6 +448,15 @@ def check_write_agree(ctx):
     res = ctx.res
     fn = ctx.tree.func("lena.output.write", "Write.run")
     preds = [d for d in fn.body if isinstance(d, ast.FunctionDef)]
+    if not preds:
+        # the same predicate as a module-level function of lena.output.write, called with (data, context) in run()
+        for c in A.walk_local(fn):
+            if isinstance(c, ast.Call) and isinstance(c.func, ast.Name) and len(c.args) == 2 and not c.keywords:
+                t = res.resolve(c.func)
+                if t is not None and t.is_func and isinstance(t.node, ast.FunctionDef) and A.enclosing_class(t.node) is None \
+                        and getattr(getattr(t.node, "_module", None), "name", "lena.output.write") == "lena.output.write" \
+                        and t.node not in preds and len(A.func_params(t.node)) == 2:
+                    preds.append(t.node)
     loop = flow_loop(ctx, fn)
     if not ctx.require(len(preds) == 1 and loop is not None and len(A.func_params(preds[0])) == 2, "C10-e", fn,
                        "Write.run: the nested selection predicate was not found"):
